@@ -16,6 +16,8 @@ import (
 )
 
 func (db *DB) writeJournal(batches []*Batch, seq uint64, sync bool) error {
+	verifEvent(VerifEvJournalArgs, seq, verifJournalArgs(batches, sync))
+	verifEvent(VerifEvJournalSize, verifBatchesWID(batches), verifBatchesBytes(batches))
 	wr, err := db.journal.Next()
 	if err != nil {
 		return err
@@ -200,6 +202,7 @@ func (db *DB) writeLocked(batch, ourBatch *Batch, merge, sync bool) error {
 			select {
 			case incoming := <-db.writeMergeC:
 				verifEvent(VerifEvMergeRecv, verifWID(batch, nil), verifWID(incoming.batch, incoming.key))
+				verifEvent(VerifEvMergeInfo, verifWID(incoming.batch, incoming.key), verifMergeInfo(incoming))
 				verifYield(VerifYpMergeRecv)
 				if incoming.batch != nil {
 					// Merge batch.
@@ -264,6 +267,7 @@ func (db *DB) writeLocked(batch, ourBatch *Batch, merge, sync bool) error {
 	verifEvent(VerifEvJournalOk, verifWID(batch, nil), seq)
 	// Put batches.
 	for _, batch := range batches {
+		verifEvent(VerifEvPutMem, verifWID(batch, nil), uint64(batch.Len())<<40|seq)
 		if err := batch.putMem(seq, mdb.DB); err != nil {
 			panic(err)
 		}
